@@ -130,6 +130,15 @@ INT_HPS = {"batch_size", "learn_step", "policy_freq", "update_epochs"}
 LEARN_ALGOS = ("DQN", "Rainbow DQN", "CQN", "DDPG", "TD3", "NeuralUCB", "NeuralTS", "PPO", "IPPO", "MADDPG", "MATD3")
 
 
+INIT_KEY = {"lr": "LR", "lr_actor": "LR_ACTOR", "lr_critic": "LR_CRITIC", "batch_size": "BATCH_SIZE", "learn_step": "LEARN_STEP",
+            "gamma": "GAMMA", "tau": "TAU", "policy_freq": "POLICY_FREQ", "ent_coef": "ENT_COEF", "clip_coef": "CLIP_COEF",
+            "vf_coef": "VF_COEF", "gae_lambda": "GAE_LAMBDA", "update_epochs": "UPDATE_EPOCHS", "beta": "BETA", "reg": "REG"}
+# float-typed hyperparameters with a range that contains the integer the constructor is given: (min, max, integer start)
+TYPED_RANGE = {"gamma": (0.9, 1.0, 1), "gae_lambda": (0.5, 2.0, 1), "tau": (0.25, 1.0, 1), "clip_coef": (0.1, 1.0, 1),
+               "ent_coef": (0.0, 1.0, 1), "vf_coef": (0.25, 2.0, 1), "beta": (0.25, 1.0, 1), "reg": (0.5, 4.0, 1),
+               "lr": (0.25, 1.0, 1), "lr_actor": (0.25, 1.0, 1), "lr_critic": (0.25, 1.0, 1)}
+
+
 def expected_lr_name(algo, opt_name):
     """which learning-rate attribute an optimizer is built with in the algorithm's source (ground truth that does
     not go through the registry's own name inference)"""
@@ -220,6 +229,8 @@ class C06(vlib.Driver):
                         par = {"min": mn, "max": mx, "shrink": sh, "grow": gr, "int": isint}
                         vs = sorted({0.5, 1, mn, mn / sh, (mn + mx) / 2, 3, mx / gr, mx, 16, mn * 2})
                         vs = [int(v) if (isint and float(v).is_integer()) else v for v in vs]
+                        if not isint:   # a float hyperparameter whose current value is a Python int object
+                            vs += [int(v) for v in vs if float(v).is_integer() and not is_int(v)]
                         pts = [[v, u] for v in vs for u in U_GRID]
                         cases.append({"kind": "value", "par": par, "pts": pts})
         # (a2) fractional bounds on an int hyperparameter (K only; the range clause of the oracle needs integer bounds)
@@ -366,6 +377,41 @@ class C06(vlib.Driver):
                         cases.append({"kind": "pop", "algo": algo, "size": 2, "hp": {n: default_par(n) for n in names},
                                       "order": names, "ops": ops, "init": {"BATCH_SIZE": 8, "LEARN_STEP": 8},
                                       "equal_lrs": {"value": 0.001, "objects": objects}, "build": build})
+            # float-typed hyperparameters whose constructor value is an INTEGER object (gamma=1, gae_lambda=1, ...; also
+            # numpy / bool objects) and an int-typed one given as a float: after every mutation the attribute must have the
+            # configured type and value, also the second time and after clone / load (types are rebuilt from init_types,
+            # coercions the constructor rejects are dropped)
+            floats = [n for n in EXTRA[algo] if n not in INT_HPS and n in TYPED_RANGE] + lr_names(algo)
+            names = floats + ["batch_size"]
+            kinds = ["int", "np_float", "bool", "np_int"]
+            for kind in (["int", kinds[1 + ALGOS.index(algo) % 3]] if quick else kinds):
+                hp = {n: {"min": TYPED_RANGE[n][0], "max": TYPED_RANGE[n][1], "shrink": 0.8, "grow": 1.2, "int": False} for n in floats}
+                hp["batch_size"] = default_par("batch_size")
+                init = {INIT_KEY[n]: float(TYPED_RANGE[n][2]) for n in floats}
+                init["BATCH_SIZE"] = 16
+                ops = []
+                for j in range(len(floats)):
+                    ops += [["round", [[j, 0.25], [j, 0.75]]], ["round", [[j, 0.75], [j, 0.25]]]]
+                bsz = len(names) - 1
+                ops += [["round", [[bsz, 0.25], [bsz, 0.75]]], ["clone", 0, 1], ["round", [[0, 0.25], [0, 0.75]]],
+                        ["loadinto", 1, 0], ["round_keep_elite", [[0, 0.25]]], ["round", [[0, 0.75], [bsz, 0.25]]]]
+                cases.append({"kind": "pop", "algo": algo, "size": 2, "hp": hp, "order": names, "ops": ops, "init": init,
+                              "init_types": dict({INIT_KEY[n]: kind for n in floats}, BATCH_SIZE="float"),
+                              "build": "classmethod" if kind == "np_float" else "create_population"})
+            # one RLParameter object configured under two names; and a configuration object taken from an agent that was
+            # already mutated (its cached values must not become the base of the new individuals' mutations)
+            if algo in LR2:
+                names = ["lr_actor", "lr_critic", "batch_size", "learn_step"]
+                hp = {n: default_par(n) for n in names}
+                hp["learn_step"] = dict(hp["batch_size"])
+                cases.append({"kind": "pop", "algo": algo, "size": 2, "hp": hp, "order": names, "init": {},
+                              "alias": [["lr_actor", "lr_critic"], ["batch_size", "learn_step"]],
+                              "ops": [["round", [[1, 0.75], [0, 0.25]]], ["round", [[0, 0.75], [1, 0.25]]],
+                                      ["round", [[2, 0.75], [3, 0.25]]], ["round", [[3, 0.75], [2, 0.25]]]]})
+            names = lr_names(algo) + ["batch_size"]
+            cases.append({"kind": "pop", "algo": algo, "size": 2, "hp": {n: default_par(n) for n in names}, "order": names,
+                          "init": {}, "donor": {"draws": [[0, 0.75], [len(names) - 1, 0.75], [0, 0.75]], "init": {}},
+                          "ops": [["round", [[0, 0.25], [len(names) - 1, 0.25]]], ["round", [[len(names) - 1, 0.75], [0, 0.75]]]]})
         # no configuration at all: the label is "None" and nothing changes
         for algo in (["DQN", "TD3", "IPPO"] if quick else ALGOS):
             cases.append({"kind": "pop", "algo": algo, "size": 2, "hp": {}, "order": [], "ops": [["round", []], ["round", []]], "init": {}})
@@ -386,9 +432,7 @@ class C06(vlib.Driver):
     @staticmethod
     def random_init(algo, hp, rng):
         """initial values inside the configured range (the quantifier of the property)"""
-        key = {"lr": "LR", "lr_actor": "LR_ACTOR", "lr_critic": "LR_CRITIC", "batch_size": "BATCH_SIZE", "learn_step": "LEARN_STEP",
-               "gamma": "GAMMA", "tau": "TAU", "policy_freq": "POLICY_FREQ", "ent_coef": "ENT_COEF", "clip_coef": "CLIP_COEF",
-               "vf_coef": "VF_COEF", "gae_lambda": "GAE_LAMBDA", "update_epochs": "UPDATE_EPOCHS", "beta": "BETA", "reg": "REG"}
+        key = INIT_KEY
         init = {}
         for n, p in hp.items():
             if n not in key:
@@ -453,6 +497,22 @@ class C06(vlib.Driver):
 
     # -- populations
     def build_pop(self, case):
+        """population for the case; constructor values are given the requested Python types where the constructor
+        accepts them (a rejected coercion — the constructors assert on some types — is dropped and the value stays float/int)"""
+        if not case.get("init_types"):
+            return self._build_pop(case)
+        try:
+            return self._build_pop(case)
+        except (AssertionError, TypeError, ValueError):
+            rejected = []
+            for k in case["init_types"]:
+                try:
+                    self._build_pop(dict(case, size=1, init_types={k: case["init_types"][k]}))
+                except (AssertionError, TypeError, ValueError):
+                    rejected.append(k)
+            return self._build_pop(case, _skip=tuple(rejected))
+
+    def _build_pop(self, case, _skip=()):
         import numpy as np
         from gymnasium import spaces
         from agilerl.algorithms.core.registry import HyperparameterConfig
@@ -471,6 +531,11 @@ class C06(vlib.Driver):
         # object identity is not part of a case (JSON): every number handed to the constructor is a fresh object, so two
         # equal values are two objects unless the case asks for one object explicitly (equal_lrs / objects == "same")
         INIT = {k: (float(repr(v)) if isinstance(v, float) else v) for k, v in INIT.items()}
+        # Python TYPE of constructor values is not part of JSON either: init_types asks for int / numpy / bool objects
+        coerce = {"int": int, "float": float, "bool": bool, "np_int": np.int64, "np_float": np.float64}
+        for k, t in (case.get("init_types") or {}).items():
+            if k in INIT and k not in (_skip or ()):
+                INIT[k] = coerce[t](INIT[k])
         if case.get("equal_lrs") and algo in LR2:
             # the two learning rates have the SAME value: as distinct float objects (parsed from a file) or as one
             # object (one literal / one variable used twice) — object identity is lost in JSON, so it is rebuilt here
@@ -487,7 +552,24 @@ class C06(vlib.Driver):
         else:
             o, a = [obs, obs], [cact, cact]
         # ONE configuration object for the whole population, as a user would write it
-        hp = HyperparameterConfig(**{n: self.make_param(case["hp"][n]) for n in case["order"]}) if case["order"] else None
+        params = {n: self.make_param(case["hp"][n]) for n in case["order"]}
+        for group in case.get("alias") or []:        # ONE RLParameter object configured under several names
+            for n in group[1:]:
+                params[n] = params[group[0]]
+        hp = HyperparameterConfig(**params) if case["order"] else None
+        if case.get("donor") and hp is not None:
+            # the configuration is taken from an agent that has already been mutated: a donor is built with it, mutated with
+            # the scripted draws, and ITS registry's configuration object is what the population is constructed with
+            from agilerl.hpo.mutation import Mutations
+            dcase = {k: v for k, v in case.items() if k not in ("donor", "alias")}
+            donor = self._build_pop(dict(dcase, size=1, init=case["donor"].get("init", {}), init_types=None), _skip=())
+            with Scripted(perms=[d[0] for d in case["donor"]["draws"]], rands=[d[1] for d in case["donor"]["draws"]],
+                          nconfig=len(case["order"])) as sc:
+                for _ in case["donor"]["draws"]:
+                    donor = Mutations(no_mutation=0, architecture=0, new_layer_prob=0, parameters=0, activation=0, rl_hp=1,
+                                      rand_seed=0).mutation(donor)
+            sc.assert_consumed()
+            hp = donor[0].registry.hp_config
         if case.get("build") == "classmethod":
             import importlib
             modname, clsname = {"DQN": ("dqn", "DQN"), "Rainbow DQN": ("dqn_rainbow", "RainbowDQN"), "CQN": ("cqn", "CQN"),
@@ -502,6 +584,11 @@ class C06(vlib.Driver):
                 kw["lr"] = INIT["LR"]
             if algo in ("MADDPG", "MATD3", "IPPO"):
                 kw["agent_ids"] = INIT["AGENT_IDS"]
+            import inspect
+            accepted = inspect.signature(cls.__init__).parameters
+            for k, v in (case.get("init") or {}).items():     # the remaining constructor values of the case
+                if k.lower() in accepted and k.lower() not in kw:
+                    kw[k.lower()] = INIT[k]
             return cls.population(case["size"], o, a, **kw)
         return create_population(algo, o, a, net, INIT, hp_config=hp, population_size=case["size"])
 
@@ -648,7 +735,8 @@ class C06(vlib.Driver):
             vals = "[" + "; ".join(f"({nid[n]}, {cf(o['vals'][n][0])})" for n in names) + "]"
             mut = "None" if o["mut"] in (None, "None") else (f"(Some {nid[o['mut']]})" if o["mut"] in nid else "(Some 4999)")
             opts = "[" + "; ".join(f"({cf(x['wlr'])}, [{'; '.join(cf(g) for g in x['groups'])}])" for x in o["opts"]) + "]"
-            return f"({vals}, {mut}, {opts})"
+            tys = "[" + "; ".join(f"({nid[n]}, {coq_bool(o['vals'][n][1] == 'int')})" for n in names) + "]"
+            return f"({vals}, {mut}, {opts}, {tys})"
 
         def agent0(o):
             vals = "[" + "; ".join(f"({nid[n]}, {cf(o['vals'][n][0])})" for n in names) + "]"
@@ -832,7 +920,8 @@ class C06(vlib.Driver):
                     if tname != dt:
                         return done(Violation("type", f"pop:type:{algo}:{n}", f"{where}: individual {i}: {n} = {got!r} has type {tname}, configured {dt}"), t)
                     if got != exp:
-                        return done(Violation("own-value-scaled-clip", f"pop:new-value:{algo}:{n}",
+                        stale = "stale-cache:" if (case.get("alias") or case.get("donor")) else ""
+                        return done(Violation("own-value-scaled-clip", f"pop:new-value:{stale}{algo}:{n}",
                                               f"{where}: individual {i}: {n} was {own!r}, draw {u!r} ({'shrink' if u < 0.5 else 'grow'}), {hp[n]}: "
                                               f"now {got!r}, expected {dt}(clip(own value * factor)) = {exp!r}"), t)
                     p = hp[n]
@@ -924,6 +1013,13 @@ class C06(vlib.Driver):
         if case["kind"] == "pop":
             labs += [f"algo={case['algo']}", f"pop-size={case['size']}", f"n-ops={len(case['ops'])}", f"built-by={case.get('build', 'create_population')}"]
             labs += [f"op={op[0]}" for op in case["ops"]]
+            for k, t in (case.get("init_types") or {}).items():
+                tn = obs["obs0"][0]["vals"].get(k.lower(), [None, "?"])[1] if obs["obs0"] else "?"
+                labs.append(f"init-type={k.lower()}:{t}->{tn}")
+            if case.get("alias"):
+                labs.append("one-RLParameter-under-several-names")
+            if case.get("donor"):
+                labs.append("config-from-mutated-agent")
             if case.get("equal_lrs"):
                 labs.append(f"equal-lrs={case['equal_lrs']['objects']}-objects")
             if not case["order"]:
